@@ -24,11 +24,12 @@ def prepare(scen, root, ctx):
     os.environ["JADE_REGISTRY"] = ctx["registry"]
     from jade.jobs.results_aggregator import ResultsAggregator
 
-    os.makedirs(os.path.join(root, "out", "results"))
+    outname = scen.get("outname", "out")
+    os.makedirs(os.path.join(root, outname, "results"))
     cwd = os.getcwd()
     os.chdir(root)
     try:
-        ResultsAggregator.create("out")
+        ResultsAggregator.create(outname)
     finally:
         os.chdir(cwd)
 
@@ -129,11 +130,11 @@ class S8(Sim):
             for i in range(wr["n"]):
                 row = expected_row(wr["batch"], wr["w"], i)
                 expected[row[0]] = row
-            self.spawn_top(f"w{k}", ["vpy", actor, "writer", str(wr["batch"]), str(wr["w"]), str(wr["n"])], f"node{wr['batch']}")
+            self.spawn_top(f"w{k}", ["vpy", actor, "writer", str(wr["batch"]), str(wr["w"]), str(wr["n"]), self.outname], f"node{wr['batch']}")
             self.settle()  # one hello at a time: the order of arrival decides priorities and must not depend on real time
             k += 1
         for c, rounds in enumerate(sc["collectors"]):
-            self.spawn_top(f"c{c}", ["vpy", actor, "collector", str(c), str(rounds)], f"sub{c}")
+            self.spawn_top(f"c{c}", ["vpy", actor, "collector", str(c), str(rounds), self.outname], f"sub{c}")
             self.settle()
         err = None
         try:
